@@ -133,10 +133,10 @@ func genMsg(r *core.RNG, machine string) PMsg {
 	case c < 9:
 		m.Kind = "error"
 		m.Args = []string{[]string{"internal", "recipient", "identity", "stanza"}[r.Intn(4)]}
-		m.Text = []string{"plugin exploded", "", "no such token", "x"}[r.Intn(4)]
+		m.Text = []string{"plugin exploded", "", "no such token", "x", "token storage is 100% full", "%s %d %w %!v(MISSING) %%"}[r.Intn(6)]
 	case c < 11:
 		m.Kind = "msg"
-		m.Text = "insert your key"
+		m.Text = []string{"insert your key", "50% done %s"}[r.Intn(2)]
 	case c < 12:
 		m.Kind = "reqsecret"
 		m.Text = "PIN:"
